@@ -112,3 +112,16 @@ impl PriceMap {
         Ok(())
     }
 }
+
+// verif hooks (g5): add-only, cfg-guarded thin wrapper. No logic of its own.
+#[cfg(gmsol_verif)]
+impl SmallPrices {
+    /// Calls `SmallPrices::from_price`.
+    pub fn verif_from_price(
+        price: &gmsol_utils::Price,
+        is_synthetic: bool,
+        is_open: bool,
+    ) -> Result<Self> {
+        Self::from_price(price, is_synthetic, is_open)
+    }
+}
